@@ -290,8 +290,15 @@ class ScaledInPlace(Harness):
         resc = other.rescale(inplace=False)
         after = (other.location, other.scale, other.mat)
         un3 = other.unscale(inplace=False)
+        # a shallow / deep copy unscaled in place must not reach the source through shared location / scale vectors
+        import copy as _copy
+        cps = {}
+        for how, mkcopy in (("copy.copy", _copy.copy), ("copy()", lambda o: o.copy()), ("copy.deepcopy", _copy.deepcopy)):
+            c = mkcopy(sm)
+            cun = c.unscale(inplace=True)
+            cps[how] = (cun, sm.unscale(inplace=False))
         un2 = sm.unscale(inplace=True)
-        return dict(back=back, un=un, un2=un2, loc=sm.location, scale=sm.scale, before=before, after=after, un3=un3, resc=resc, un_int=un_int)
+        return dict(cps=cps, back=back, un=un, un2=un2, loc=sm.location, scale=sm.scale, before=before, after=after, un3=un3, resc=resc, un_int=un_int)
 
     def check(self, P, inp, out):
         t = self.params["t"]
@@ -304,6 +311,11 @@ class ScaledInPlace(Harness):
                 P.prove(P.eq(cell(out["un2"], i, j), cell(inp["R"], i, j)), "in-place-unscale-reproduces-raw-values")
         for j in range(t):
             P.prove(And(P.eq(cell(out["loc"], j), 0.0), P.eq(cell(out["scale"], j), 1.0)), "in-place-unscale-resets-location-and-scale")
+        for how, (cun, src) in out["cps"].items():
+            for i in range(self.params["n"]):
+                for j in range(t):
+                    P.prove(P.eq(cell(cun, i, j), cell(inp["R"], i, j)), "copy-unscaled-in-place-reproduces-raw-values", detail=how)
+                    P.prove(P.eq(cell(src, i, j), cell(inp["R"], i, j)), "source-still-reproduces-raw-values-after-its-copy-was-unscaled-in-place", detail=how)
         for k in range(3):
             for x, y in zip(cells(out["before"][k]), cells(out["after"][k])):
                 P.prove(P.eq(x, y), "rescale(inplace=False)-leaves-the-object-unchanged", detail=["location", "scale", "mat"][k])
